@@ -112,7 +112,7 @@ def registry():
     return rules.REGISTRY
 
 
-def run_property(prop, tier, repo=None, write_evidence=True, quiet=False):
+def run_property(prop, tier, repo=None, write_evidence=True, quiet=False, ctx=None):
     t0 = time.time()
     repo = repo or extract.repo_root()
     try:
@@ -120,8 +120,11 @@ def run_property(prop, tier, repo=None, write_evidence=True, quiet=False):
     except extract.ExtractError as e:
         print("plsa: cannot analyse tree: %s" % e)
         return 2, None
-    crates = load_crates(facts)
-    ctx = Ctx(crates, tier, repo)
+    if ctx is None:
+        crates = load_crates(facts)
+        ctx = Ctx(crates, tier, repo)
+    else:
+        crates = ctx.crates
     reg = registry()
     if prop not in reg:
         print("plsa: no rules registered for %s" % prop)
